@@ -4,8 +4,9 @@ sys.path.insert(0, os.path.dirname(os.path.dirname(os.path.abspath(__file__))))
 from go2v_hook import go2v_hook2
 CONF = {
     'pre': [go2v_hook2],
+    'coq_sample': 6,   # cases re-evaluated inside Coq by vm_compute (digest of the session result, NgDigest.v)
     'interesting': ['option-pad-1', 'option-pad-2', 'option-pad-3', 'empty-string-option', 'multi-interface',
-                    'cut-in-header', 'cut-in-data', 'cut-in-options', 'cut-at-boundary', 'big-endian', 'kept-across-reads'],
+                    'cut-in-header', 'cut-in-data', 'cut-in-options', 'cut-at-boundary', 'big-endian', 'kept-across-reads', 'option-length-16bit-boundary'],
     'rule': 'Writer scripts (section info, 1-4 interfaces over 7 link types and 6 snap lengths, packets with data of every '
             'length residue and NgPacketOptions: comments incl. empty, flags, hashes, drop count, packet id, queue, verdicts; '
             'statistics, decryption-secret blocks, refused calls) are run through the real NgWriter; the file is read whole '
